@@ -264,7 +264,7 @@ def load_module_from_file_object(
             raise ImportError(
                 "%s is interim Python %s (%d) bytecode which is "
                 "not supported.\nFinal released versions are "
-                "supported." % (filename, versions[magic], magic2int(magic))
+                "supported." % (filename, magicint2version[magic_int], magic_int)
             )
         elif magic_int == 62135:
             fp.seek(0)
